@@ -8,14 +8,15 @@ LEAN_MODULES = ["IsoVerif.Props.C15"]
 THEOREMS = ["IsoVerif.Props.C15.merge_comm", "IsoVerif.Props.C15.merge_idem", "IsoVerif.Props.C15.merge_assoc",
             "IsoVerif.Props.C15.mergeSel_sorted", "IsoVerif.Props.C15.C15_perm", "IsoVerif.Props.C15.C15_perm_list",
             "IsoVerif.Props.C15.C15_dup", "IsoVerif.Props.C15.C15_dup_alias", "IsoVerif.Props.C15.C15_extract",
-            "IsoVerif.Props.C15.C15_witness_dup_object_argument", "IsoVerif.Props.C15.C15_witness_order"]
+            "IsoVerif.Props.C15.C15_witness_dup_object_argument", "IsoVerif.Props.C15.C15_witness_order",
+            "IsoVerif.Props.C15.C15_witness_order_location_before_value"]
 HARNESS = ("hx_merge", {"HX_ENGINE": "arrange"})
 DRIVER = "drv_merge"
 CASES = {"quick": 400, "thorough": 12000}
 TECHNIQUE = ("Lean 4 theorems over an executable model of create_merged_selection_set.rs / variable_context.rs (the traversal as the list of `entry().or_insert()` insertions it performs, "
              "the merged map as a sorted association list on paths of normalization keys, client fields expanded with variable substitution); differential correspondence of the model's merged "
              "map with the map the real compiler hands to its printers (dump hook), and direct oracle on the compiler's artifacts, on generated projects and their three rearrangements "
-             "(hx_projgen), every compile in a fresh process")
+             "(hx_projgen)")
 LEVEL_TEXT = ("Kernel-checked: union of merged maps is idempotent, associative and (on maps that agree on common keys) commutative, sortedness is an invariant (merge_idem, merge_assoc, merge_comm, "
               "mergeSel_sorted); the map produced by merging a selection set is unchanged by permuting selections at every depth (C15_perm), by selecting again what is already selected — in "
               "particular under another alias (C15_dup, C15_dup_alias) — and by moving part of a selection set into a new client field selected at the same place with the variables passed "
@@ -23,19 +24,20 @@ LEVEL_TEXT = ("Kernel-checked: union of merged maps is idempotent, associative a
               "position, under the stated hypothesis that node data is a function of the key path (checked by the driver on every case). The model is tied to the Rust code by comparing, per "
               "entrypoint, its merged map with the one the compiler's printers receive, for every generated project and its rearrangement; the property itself (byte-identical query_text.ts and "
               "normalization_ast.ts within each pair) is evaluated on the compiler's artifacts. Two defects of the unchanged compiler are open findings with kernel-checked witnesses: a "
-              "selection with an object/list literal argument selected twice is fetched twice (source locations are part of the key), and the ORDER of entries follows string interning and "
-              "source positions, i.e. the order in which selections were written.")
+              "selection with an object/list literal argument selected twice is fetched twice (source locations are part of the key), and among selections of one field whose arguments are object/list literals the ORDER of entries "
+              "follows the source positions of the literals, i.e. the order in which the selections were written.")
 LEVEL_NOTE = ("Trusted: Lean kernel; the hand transcription of the merge (validated by correspondence only); hx_projgen's renderer and rearrangements; the dump hook's wire encoding. The "
-              "iteration order of the implementation's maps (interned-string ids, embedded source locations) is NOT modelled: the harness reports whether two compiles iterate equal maps in "
-              "the same order and the model takes that observation as an input when it predicts byte-equality of the artifacts. Refetch-path numbering is excluded (C25).")
+              "iteration order of the implementation's maps (derived Ord of NormalizationKey: string contents, and the source locations embedded in object/list literals) is transcribed as Merge.cmpKey "
+              "and compared entry by entry with the compiler's own iteration order; no theorem depends on it. Byte-equality of the artifacts is predicted from equality of the two ordered maps. "
+              "Refetch-path numbering is excluded (C25).")
 PARTIAL = ["theorems are about located selection sets (an object/list literal keeps its identity when the selection is moved); that re-numbering source positions is an injective renaming of "
            "these identities is covered by correspondence only",
            "C15_dup / C15_extract / C15_perm assume Coherent (node data is a function of the key path) for the traversal at hand; the driver evaluates it on every case",
            "the model covers: server scalar and linked fields with arguments, __typename, id, asConcreteType inline fragments, client fields (expanded, with child variable contexts, defaults, "
            "null for missing), client pointers, __link / __refetch / exposed fields / @loadable as boundaries; not: entrypoints on non-root types (wrap_merged_selection_map), refetch-path "
            "bookkeeping, the separate maps of loadable / imperatively loaded fields",
-           "order of map entries: an observation of the implementation, not a model output (open finding order:args)"]
-ASSUMPTIONS = ["a fresh process per compile reproduces the interning order of the isograph_cli binary",
+           "the theorems are about the map as a set of (path, data) entries kept in a canonical order; that the PRINTED order is the derived Ord including source locations is the open finding (C15_witness_order_location_before_value), tied by correspondence"]
+ASSUMPTIONS = ["a compile does not depend on the history of the process (StringId: Ord compares string contents; in-process and fresh-process compiles gave byte-identical answers on 300 pairs; HX_MERGE_FRESH=1 compiles each project in a child process)",
                "query_text.ts and normalization_ast.ts are functions of the ordered merged map and the entrypoint's variable definitions (C11/C12 tie the printers)"]
 
 
